@@ -213,3 +213,7 @@ def generate(repo, g):
         len([c for c in ast.walk(un) if isinstance(c, ast.Call) and u(c.func) == 'named_args.append']) == 1
     g.define('keywordsAfterPositionals', 'Bool', lean_bool(ok),
              'jedi/inference/arguments.py:TreeArguments.unpack (named_args collected, yielded last)')
+
+    # ---- loop unrolling / per-node cache facts (Model/FlowCache.lean)
+    from translator import c02_flow_facts
+    c02_flow_facts.generate(repo, g)
